@@ -2,6 +2,8 @@ package gvc
 
 import (
 	"bufio"
+
+	"golang.org/x/tools/go/ssa"
 	"fmt"
 	"os"
 	"path/filepath"
@@ -91,6 +93,7 @@ type Contracts struct {
 	FCopied []*FieldsCopied
 	Axioms  []*Clause
 	TypeInvs []*Clause
+	pureMemo map[*ssa.Function]int
 	Files   []string
 	Witness []string
 }
